@@ -40,24 +40,24 @@ type AuthStep struct {
 	Text string // sent verbatim after the code (base64 for 334)
 }
 
-// AuthHandler produces the server side of an AUTH exchange.
-// It is called with the mechanism and initial response (decoded, nil if absent) and
-// then with every client response; it returns the next reply.
+// AuthHandler produces the server side of an AUTH exchange: Step answers message j
+// (0 = the AUTH command with its optional initial response, then every client response).
 type AuthHandler interface {
-	Start(mech string, initial []byte, hasInitial bool) AuthStep
-	Next(resp []byte, raw string) AuthStep
+	Step(j int, mech string, msg []byte, has bool) AuthStep
 }
 
 // Config describes one server instance.
 type Config struct {
-	Caps     []string          // EHLO keywords (first EHLO)
-	Caps2    []string          // EHLO keywords after STARTTLS (nil: same as Caps)
-	Faults   map[Key]Fault     // scripted non-default replies
-	Addr     map[string][2]int // mailbox -> (message, recipient index; 0 for the sender)
-	Expected map[int][]byte    // complete rendering per message
-	TLS      *tls.Config       // used for STARTTLS / implicit TLS
-	Implicit bool              // TLS from the first byte
-	Auth     func() AuthHandler
+	Caps      []string          // EHLO keywords (first EHLO)
+	Caps2     []string          // EHLO keywords after STARTTLS (nil: same as Caps)
+	Faults    map[Key]Fault     // scripted non-default replies
+	Addr      map[string][2]int // mailbox -> (message, recipient index; 0 for the sender)
+	Expected  map[int][]byte    // complete rendering per message
+	TLS       *tls.Config       // used for STARTTLS / implicit TLS
+	Implicit  bool              // TLS from the first byte
+	Auth      func(state *tls.ConnectionState) AuthHandler
+	HSGarbage bool // answer the ClientHello with bytes that are not TLS
+	HSStall   bool // never answer the ClientHello
 	// CredScan reports whether a cleartext line carries a password-revealing payload.
 	CredScan func(line string) bool
 	Greeting time.Duration // how long to listen for early bytes before greeting
@@ -135,6 +135,8 @@ func OkCode(v string) int {
 		return 221
 	case "GREET", "STARTTLS":
 		return 220
+	case "ABORT":
+		return 501
 	}
 	return 250
 }
@@ -297,6 +299,8 @@ func (x *session) serveCmds() {
 		case "AUTH":
 			mech = strings.ToUpper(strings.SplitN(arg, " ", 2)[0])
 		case "DATA", "RSET", "NOOP", "QUIT", "STARTTLS":
+		case "*":
+			v = "ABORT"
 		default:
 			v = "OTHER"
 		}
@@ -310,7 +314,7 @@ func (x *session) serveCmds() {
 		if v != "MAIL" && v != "RCPT" && v != "EHLO" && v != "HELO" {
 			key = Key{v, x.last, 0}
 		}
-		if v == "QUIT" || v == "STARTTLS" || v == "AUTH" || v == "OTHER" {
+		if v == "QUIT" || v == "STARTTLS" || v == "AUTH" || v == "OTHER" || v == "ABORT" {
 			key = Key{v, 0, 0}
 		}
 		switch v {
@@ -421,12 +425,39 @@ func Classify(got []byte, expected map[int][]byte, m int) string {
 }
 
 func (x *session) startTLS() bool {
-	tc := tls.Server(x.c, x.s.cfg.TLS)
+	if x.s.cfg.HSStall {
+		x.stall()
+		return false
+	}
+	if x.s.cfg.HSGarbage {
+		_ = x.write("this is not a TLS record at all\r\n")
+		x.s.rec.Emit("tls", "ok", false)
+		// drain; anything that is not a TLS record is recorded as cleartext
+		var seen []byte
+		buf := make([]byte, 4096)
+		_ = x.c.SetReadDeadline(time.Now().Add(10 * time.Second))
+		for {
+			n, err := x.br.Read(buf)
+			if len(seen) < 8192 {
+				seen = append(seen, buf[:n]...)
+			}
+			if err != nil {
+				break
+			}
+		}
+		x.clearLines(seen)
+		x.s.rec.Emit("sclose", "indata", false, "partial", 0)
+		return false
+	}
+	tap := &tapConn{Conn: x.c}
+	tc := tls.Server(tap, x.s.cfg.TLS)
 	_ = tc.SetDeadline(time.Now().Add(10 * time.Second))
 	err := tc.Handshake()
 	_ = tc.SetDeadline(time.Time{})
 	x.s.rec.Emit("tls", "ok", err == nil)
 	if err != nil {
+		// bytes that were sent instead of a ClientHello are cleartext: record them as commands
+		x.clearLines(tap.seen)
 		return false
 	}
 	x.c = tc
@@ -435,44 +466,99 @@ func (x *session) startTLS() bool {
 	return true
 }
 
+// tapConn remembers what was read while a handshake was attempted.
+type tapConn struct {
+	net.Conn
+	seen []byte
+}
+
+func (t *tapConn) Read(p []byte) (int, error) {
+	n, err := t.Conn.Read(p)
+	if len(t.seen) < 4096 {
+		t.seen = append(t.seen, p[:n]...)
+	}
+	return n, err
+}
+
+// clearLines emits command events for cleartext found where a TLS record was expected.
+func (x *session) clearLines(b []byte) {
+	if len(b) == 0 || b[0] == 0x16 {
+		return // a TLS handshake record: nothing in clear
+	}
+	for _, l := range strings.Split(string(b), "\n") {
+		raw := strings.TrimRight(l, "\r")
+		if raw == "" {
+			continue
+		}
+		verb := strings.ToUpper(strings.SplitN(raw, " ", 2)[0])
+		switch verb {
+		case "EHLO", "HELO", "MAIL", "RCPT", "DATA", "RSET", "NOOP", "QUIT", "STARTTLS", "AUTH":
+		default:
+			verb = "OTHER"
+		}
+		cred := x.s.cfg.CredScan != nil && x.s.cfg.CredScan(raw)
+		x.s.rec.Emit("cmd", "verb", verb, "m", 0, "r", 0, "params", []string{}, "enc", false, "cred", cred,
+			"mech", "", "wf", true, "line", clip(raw), "unexpected_clear", true)
+	}
+}
+
+func (x *session) tlsState() *tls.ConnectionState {
+	if tc, ok := x.c.(*tls.Conn); ok {
+		st := tc.ConnectionState()
+		return &st
+	}
+	return nil
+}
+
+func replyClass(code int) string {
+	switch {
+	case code >= 500:
+		return "p5"
+	case code >= 400:
+		return "t4"
+	}
+	return "ok"
+}
+
 func (x *session) auth(arg string) bool {
 	s := x.s
-	if _, bad := s.cfg.Faults[Key{"AUTH", 0, 0}]; bad {
-		return x.reply(Key{"AUTH", 0, 0}, "", nil)
-	}
+	key := Key{"AUTH", 0, 0}
 	if s.cfg.Auth == nil {
+		if _, bad := s.cfg.Faults[key]; bad {
+			return x.reply(key, "", nil)
+		}
 		s.rec.Emit("reply", "code", 504, "cls", "p5", "esc", "", "caps", []string{})
 		return x.write("504 unrecognised authentication type\r\n") == nil
 	}
-	h := s.cfg.Auth()
+	h := s.cfg.Auth(x.tlsState())
 	parts := strings.SplitN(arg, " ", 2)
-	var initial []byte
+	mech := strings.ToUpper(parts[0])
+	var msg []byte
 	has := false
 	if len(parts) == 2 && parts[1] != "" {
 		has = true
 		if parts[1] != "=" {
-			initial, _ = base64.StdEncoding.DecodeString(parts[1])
+			msg, _ = base64.StdEncoding.DecodeString(parts[1])
 		}
 	}
-	step := h.Start(strings.ToUpper(parts[0]), initial, has)
-	for {
-		cls := "ok"
-		if step.Code >= 500 {
-			cls = "p5"
-		} else if step.Code >= 400 {
-			cls = "t4"
-		}
-		if step.Code == 0 {
-			s.rec.Emit("drop")
-			_ = x.c.Close()
-			return false
-		}
-		s.rec.Emit("reply", "code", step.Code, "cls", cls, "esc", "", "caps", []string{})
-		if x.write(fmt.Sprintf("%d %s\r\n", step.Code, step.Text)) != nil {
-			return false
-		}
-		if step.Code != 334 {
-			return true
+	for j := 0; ; j++ {
+		if f, bad := s.cfg.Faults[key]; bad {
+			if f.Class != "mal" {
+				return x.reply(key, "", nil)
+			}
+			s.rec.Emit("reply", "code", 334, "cls", "mal", "esc", "", "caps", []string{})
+			if x.write("334 %%%this-is-not-base64%%%\r\n") != nil {
+				return false
+			}
+		} else {
+			step := h.Step(j, mech, msg, has)
+			s.rec.Emit("reply", "code", step.Code, "cls", replyClass(step.Code), "esc", "", "caps", []string{})
+			if x.write(fmt.Sprintf("%d %s\r\n", step.Code, step.Text)) != nil {
+				return false
+			}
+			if step.Code != 334 {
+				return true
+			}
 		}
 		line, err := x.readLine()
 		if err != nil {
@@ -480,14 +566,20 @@ func (x *session) auth(arg string) bool {
 			return false
 		}
 		raw := strings.TrimRight(line, "\r\n")
+		if raw == "*" {
+			s.rec.Emit("cmd", "verb", "ABORT", "m", 0, "r", 0, "params", []string{}, "enc", x.enc,
+				"cred", false, "mech", "", "wf", strings.HasSuffix(line, "\r\n"), "line", "*")
+			return x.reply(Key{"ABORT", 0, 0}, "", nil)
+		}
 		cred := false
 		if s.cfg.CredScan != nil {
 			cred = s.cfg.CredScan(raw)
 		}
-		s.rec.Emit("cmd", "verb", "AUTHRESP", "m", 0, "r", 0, "params", []string{}, "enc", x.enc,
+		s.rec.Emit("cmd", "verb", "AUTHRESP", "m", 0, "r", j+1, "params", []string{}, "enc", x.enc,
 			"cred", cred, "mech", "", "wf", strings.HasSuffix(line, "\r\n"), "line", clip(raw))
-		dec, _ := base64.StdEncoding.DecodeString(raw)
-		step = h.Next(dec, raw)
+		msg, _ = base64.StdEncoding.DecodeString(raw)
+		has = true
+		key = Key{"AUTHRESP", 0, j + 1}
 	}
 }
 
